@@ -1,10 +1,13 @@
 import QuiverModel.Core.Prelude
-import QuiverModel.Core.Heap.Exec
+import QuiverModel.Core.Heap.Select
 /-
 qm_c06 — driver for M-Heap. One executor state; requests (S-expressions, one per line):
 
   (init)
   (program (canon n*) (builtins name*))        tables used by `equal` and builtin calls
+  (receivers (fcompat (fid kind*)*) (empty fid*))  parameter compatibility / body-less functions (select)
+  (i pid (select now))                         a `Select` instruction at clock `now` (stepSelect)
+  (notify-failure awaiter awaited)             notify_failure (recorded in `awaiting_failed`)
   (spawn-process id fi|none (v*) v (hex*) 0|1) spawn_process(id, fi, captures, argument, heap, persistent)
   (i pid INSTR)                                one instruction incl. the Err arm (stepInstr)
   (popframe pid) (finish pid) (ppf)            bookkeeping of `step`
@@ -31,6 +34,13 @@ structure DState where
   regs : List Val := []
   canon : List Nat := []
   builtins : List String := []
+  /-- `function_param_compatibility`: function id → accepted message kinds (`int`, `bin`, `tuple`);
+  a function without entry accepts everything -/
+  fcompat : List (Nat × List String) := []
+  /-- functions with an empty body (type-only receivers) -/
+  emptyFns : List Nat := []
+  /-- `awaiting_failed` of every process: (awaiter, awaited) pairs (errors carry no values) -/
+  failed : List (Nat × Nat) := []
   deriving Inhabited
 
 partial def parseVal : Sx → Option Val
@@ -143,6 +153,43 @@ def builtinRun (s : State) (name : String) : Option BuiltinRun :=
       result := fun p _ => (heapBytes s p).map (fun x => .int x.length) }
   | _ => none
 
+def kindOf : Val → String
+  | .int _ => "int"
+  | .bin _ => "bin"
+  | .tuple _ _ => "tuple"
+  | .func _ _ => "func"
+  | .builtin _ => "builtin"
+  | .proc _ _ => "proc"
+  | .ref _ => "ref"
+  | .resource _ _ => "resource"
+
+def mkSelEnv (d : DState) (pid now : Nat) : SelEnv :=
+  { now := now,
+    compat := fun m src => match src with
+      | .func f _ => match d.fcompat.find? (·.1 == f) with
+        | some (_, kinds) => kinds.contains (kindOf m)
+        | none => true
+      | _ => true,
+    typeOnly := fun src => match src with
+      | .func f _ => d.emptyFns.contains f
+      | .builtin _ => true
+      | _ => false,
+    failed := fun t => d.failed.contains (pid, t),
+    fnExists := fun _ => true,
+    run := fun id => (d.builtins[id]?).bind (builtinRun d.s) }
+
+def selectSources (s : State) (pid : Nat) : List Val :=
+  match s.getProc pid with
+  | some p => match p.selectState with
+    | some st => st.sources
+    | none => []
+  | none => []
+
+def hasSelectState (s : State) (pid : Nat) : Bool :=
+  match s.getProc pid with
+  | some p => p.selectState.isSome
+  | none => false
+
 def mkEnv (d : DState) (flag : Bool) : Env :=
   { fnExists := fun _ => true,
     run := fun id => (d.builtins[id]?).bind (builtinRun d.s),
@@ -203,17 +250,42 @@ def c06Step (d : DState) (req : List Sx) : DState × String :=
     match cs.mapM Sx.asNat, bs.mapM Sx.asAtom with
     | some c, some b => answer { d with canon := c, builtins := b } "ok"
     | _, _ => (d, "bad-request")
+  | [.list [.atom "receivers", .list (.atom "fcompat" :: fc), .list (.atom "empty" :: es)]] =>
+    let parseEntry : Sx → Option (Nat × List String)
+      | .list (f :: kinds) => do pure (← f.asNat, ← kinds.mapM Sx.asAtom)
+      | _ => none
+    match fc.mapM parseEntry, es.mapM Sx.asNat with
+    | some fc, some es => answer { d with fcompat := fc, emptyFns := es } "ok"
+    | _, _ => (d, "bad-request")
   | [.list [.atom "spawn-process", id, fi, .list caps, arg, hd, pers]] =>
     match id.asNat, parseOptNat fi, caps.mapM parseVal, parseVal arg, parseHexList hd, parseBool pers with
     | some id, some fi, some caps, some arg, some hd, some pers =>
       let (s, o) := spawnProcess d.s id fi caps arg hd pers
       answer { d with s := s } (renderOut s o)
     | _, _, _, _, _, _ => (d, "bad-request")
+  | [.list [.atom "i", pid, .list [.atom "select", now]]] =>
+    match pid.asNat, now.asNat with
+    | some pid, some now =>
+      let before := selectSources d.s pid
+      let (s, o) := stepSelect (mkSelEnv d pid now) d.s pid
+      -- `complete_select` also clears `awaiting_failed` for the process sources of the select
+      let failed := if !before.isEmpty && !hasSelectState s pid
+        then d.failed.filter (fun e => !(e.1 == pid && (pidTargets before).contains e.2)) else d.failed
+      answerP { d with s := s, failed := failed } pid (renderOut s o)
+    | _, _ => (d, "bad-request")
   | [.list [.atom "i", pid, ins]] =>
     match pid.asNat, parseInstr ins with
     | some pid, some i =>
       let (s, o) := stepInstr (mkEnv d (instrFlag ins)) d.s pid i
       answerP { d with s := s } pid (renderOut s o)
+    | _, _ => (d, "bad-request")
+  | [.list [.atom "notify-failure", a, b]] =>
+    match a.asNat, b.asNat with
+    | some a, some b =>
+      let still := match d.s.getProc a with
+        | some p => p.result.isNone && (aget p.awaiting b).isSome
+        | none => false
+      answer { d with failed := if still then (a, b) :: d.failed else d.failed } "ok"
     | _, _ => (d, "bad-request")
   | [.list [.atom "popframe", pid]] =>
     match pid.asNat with
@@ -221,7 +293,18 @@ def c06Step (d : DState) (req : List Sx) : DState × String :=
     | none => (d, "bad-request")
   | [.list [.atom "finish", pid]] =>
     match pid.asNat with
-    | some pid => let (s, o) := finish d.s pid; answerP { d with s := s } pid (renderOut s o)
+    | some pid =>
+      let (s, o) := finish d.s pid
+      -- the rest of the completion block: same-executor awaiters
+      let failedNow := match s.getProc pid with
+        | some p => match p.result with | some .err => true | _ => false
+        | none => false
+      let stillAwaiting := (awaitersOf s pid).filter (fun a => match s.getProc a with
+        | some p => p.result.isNone
+        | none => false)
+      let failed := if failedNow then stillAwaiting.map (fun a => (a, pid)) ++ d.failed else d.failed
+      let s := match o with | .fail => s | _ => notifyAwaiters s pid
+      answerP { d with s := s, failed := failed } pid (renderOut s o)
     | none => (d, "bad-request")
   | [.list [.atom "ppf"]] => answer { d with s := processPendingFree d.s } "ok"
   | [.list [.atom "notify-message", id, v, hd]] =>
